@@ -215,10 +215,16 @@ def _row_id_ok(fi, idx, feats, guards):
 
 
 def _check_forwarding(chk, rep, repo):
+    nf = check_model_forwarding(rep, repo, ("fit", "predict"))
+    chk.floor("subgraph constructions in fit/predict", nf, 7)
+    check_constructor_forwarding(rep, repo)
+
+
+def check_model_forwarding(rep, repo, methods):
     # models forward I_* next to the matching X_*
     nf = 0
     for cls in ("SupervisedOPF", "SemiSupervisedOPF", "KNNSupervisedOPF", "UnsupervisedOPF"):
-        for m in ("fit", "predict"):
+        for m in methods:
             w = model_walk(repo, cls, m)
             if w.entry.cls != cls:
                 continue
@@ -234,8 +240,7 @@ def _check_forwarding(chk, rep, repo):
                     rep.ev("ID-forward", ev, ok,
                            f"the subgraph for {show(X) if X else '?'} must receive the matching index array; got "
                            f"{show(I) if I else 'none'}")
-    chk.floor("subgraph constructions in fit/predict", nf, 7)
-    check_constructor_forwarding(rep, repo)
+    return nf
 
 
 def check_constructor_forwarding(rep, repo):
